@@ -1,5 +1,5 @@
 (* C19 (c): parse (print v) = Some v for every value of the JSON subset (Model/JsonText.v). *)
-From Coq Require Import ZArith QArith List Bool String Ascii NArith Lia Decimal DecimalString DecimalN DecimalPos.
+From Coq Require Import ZArith QArith List Bool String Ascii NArith Lia Decimal DecimalFacts DecimalString DecimalN DecimalPos.
 From Pandora Require Import Model.Json Model.JsonText Proofs.JsonP.
 Import ListNotations.
 Open Scope string_scope.
@@ -87,6 +87,21 @@ Proof.
     cbn [NilEmpty.string_of_uint all_chars] in *; apply andb_prop in D as [D _]; eexists; eexists; split; try reflexivity; exact D.
 Qed.
 
+Lemma to_uint_norm n d : N.to_uint n = D0 d -> d = Nil.
+Proof.
+  intro H. pose proof (DecimalN.Unsigned.to_of (N.to_uint n)) as T. rewrite DecimalN.Unsigned.of_to in T.
+  rewrite H in T. unfold unorm in T. destruct (nzhead (D0 d)) eqn:E; try discriminate.
+  - inversion T. reflexivity.
+  - exfalso. exact (DecimalFacts.nzhead_nonzero _ _ E).
+Qed.
+
+Lemma pn_no_leading_zero n c t : pn n = String c t -> Ascii.eqb c "0" && negb (String.eqb t "") = false.
+Proof.
+  unfold pn. intro H. destruct (N.to_uint (Z.to_N n)) eqn:E; cbn [NilEmpty.string_of_uint] in H; try discriminate;
+    inversion H; subst; try reflexivity.
+  apply to_uint_norm in E. subst. reflexivity.
+Qed.
+
 Lemma pn_parse n : (0 <= n)%Z ->
   NilEmpty.uint_of_string (pn n) = Some (N.to_uint (Z.to_N n))
   /\ Z.of_N (N.of_uint (N.to_uint (Z.to_N n))) = n.
@@ -130,7 +145,7 @@ Lemma num_body_int neg n : (0 <= n)%Z ->
 Proof.
   intro H. unfold num_body. rewrite (span_all is_digit (pn n) (pn_digits _)).
   destruct (pn_nonempty n) as [c [t [E _]]]. destruct (pn_parse n H) as [P1 P2].
-  rewrite E at 1. rewrite P1, P2. reflexivity.
+  rewrite E at 1. rewrite (pn_no_leading_zero n c t E). rewrite P1, P2. reflexivity.
 Qed.
 
 (* the token of an integer *)
@@ -199,7 +214,8 @@ Section Float.
       - apply Z.ltb_ge in Sg. rewrite (Z.abs_eq (Qnum q)) by lia. rewrite Dd at 2. ring. }
     assert (Body : forall neg : bool, neg = (Qnum q <? 0)%Z ->
       num_body neg (pn (m / p) ++ String "." (fixw k (m mod p))) = Some (JFloat q)).
-    { intros neg En. unfold num_body. rewrite Sp. rewrite Ec at 1. rewrite P1, P2.
+    { intros neg En. unfold num_body. rewrite Sp. rewrite Ec at 1. rewrite (pn_no_leading_zero _ c t Ec).
+      rewrite P1, P2.
       change (Ascii.eqb "." ".") with true. cbv iota. rewrite Ef at 1. rewrite Dv1, Dv2.
       f_equal. f_equal. destruct neg; exact (Val _ En). }
     destruct (Qnum q <? 0)%Z eqn:Sg.
